@@ -20,9 +20,9 @@ def make_env(k, nr):
 
 
 class Run(object):
-    def __init__(self, backend, concurrent):
+    def __init__(self, backend, concurrent, cfg=None):
         self.backend = backend
-        self.st = backends.maker(backend)({})
+        self.st = backends.maker(backend)(cfg or {})
         self.ev = []
         self.ids = {}
         self.raw = {}
@@ -63,20 +63,38 @@ class Run(object):
             elif op == 'remove':
                 st.remove(self.raw[a['id']])
                 r = {'t': 'ret', 'tid': tid, 'ok': True}
+            elif op == 'load_step':
+                # iterate the listing by hand and remove a not-yet-listed message in the middle of it
+                gen = iter(st.load())
+                got = []
+                try:
+                    got.append(next(gen))
+                except StopIteration:
+                    pass
+                victim = a.get('_victim')
+                if victim is not None and victim in self.raw and all(self.sid(r_) != victim for _, r_ in got):
+                    self.ev.append({'t': 'call', 'tid': 2, 'op': 'remove', 'a': {'id': victim}})
+                    st.remove(self.raw[victim])
+                    self.ev.append({'t': 'ret', 'tid': 2, 'ok': True})
+                    a['_removed'] = victim
+                got.extend(gen)
+                v = sorted([[int(float(ts)), self.sid(raw)] for ts, raw in got], key=lambda x: x[1])
+                r = {'t': 'ret', 'tid': tid, 'ok': True, 'v': v}
             elif op == 'load':
                 v = sorted([[int(float(ts)), self.sid(raw)] for ts, raw in st.load()], key=lambda x: x[1])
                 r = {'t': 'ret', 'tid': tid, 'ok': True, 'v': v}
         except Exception as e:  # noqa
             r = {'t': 'ret', 'tid': tid, 'ok': False, 'cls': type(e).__name__}
-            if op in ('write', 'load'):
+            if op in ('write', 'load', 'load_step'):
                 r['v'] = 0 if op == 'write' else []
         a.pop('_arg', None)
+        a.pop('_victim', None)
         self.ev.append(r)
         return r
 
 
 def gen_case(backend, rnd, nmsg, nops, concurrent):
-    run = Run(backend, concurrent)
+    run = Run(backend, concurrent, {'prefix': rnd.choice(['slimta:', 'slimta:', 'mq-', 'slimta:q-', 'q.'])})
     live = {}      # sid -> [rcpts left, marked?]
     dead = []
     ts = [100]
@@ -145,7 +163,20 @@ def gen_case(backend, rnd, nmsg, nops, concurrent):
                 mut_op(1, rnd.choice(pool))
             steps += 1
         r = rnd.random()
-        if r < 0.25:
+        if r < 0.12 and len(live) >= 2 and backend != 'dict':   # the dict backend's load never yields: no overlap is possible there
+            victim = rnd.choice(sorted(live))
+            a_ = {'_victim': victim}
+            run.ev.append(None)             # placeholder: the call event must be named 'load' for the observer
+            run.ev.pop()
+            res_ = run.op(1, 'load_step', a_)
+            # rename for the observer and account for the removal
+            for e_ in run.ev:
+                if e_.get('op') == 'load_step':
+                    e_['op'] = 'load'
+            if a_.get('_removed') in live:
+                del live[a_['_removed']]
+                dead.append(a_['_removed'])
+        elif r < 0.25:
             run.op(1, 'load', {})
         elif r < 0.4:
             if concurrent and rnd.random() < 0.5:
